@@ -188,4 +188,52 @@ theorem readPdb_groups_conects (L : PdbLayout) (excl : List (List Char)) (ignh :
   simp only [List.append_nil, List.reverse_reverse]
   cases doConect L (List.map idTable (List.map (fun g => List.map Prod.snd g.fst) groups)) cons <;> rfl
 
+/-- what `PDBParser._atom` copies from the columns into the atom it keeps -/
+theorem pdbAtomOfProps_keep (excl : List (List Char)) (ignh : Bool) (p : Props) (pa : PAtom)
+    (h : pdbAtomOfProps excl ignh p = .ok (.keep pa)) :
+    pa.atomid = p.int .atomid ∧ pa.atomname = p.str .atomname ∧ pa.altloc = p.str .altloc ∧
+    pa.resname = p.str .resname ∧ pa.chain = p.str .chain ∧ pa.resid = p.int .resid ∧
+    pa.icode = p.str .insertion_code ∧ pa.x = p.dec .x ∧ pa.y = p.dec .y ∧ pa.z = p.dec .z ∧
+    pa.occ = p.dec .occupancy ∧ pa.temp = p.dec .temp_factor := by
+  unfold pdbAtomOfProps at h
+  by_cases hc : p.str .charge ≠ []
+  · simp [hc, bind, Except.bind, throw, throwThe, MonadExceptOf.throw] at h
+  · by_cases h1 : p.str .altloc ≠ [] ∧ p.str .altloc ≠ ['A']
+    · by_cases he : p.str .element = []
+      · cases hf : firstAlpha (p.str .atomname) <;>
+          simp [hc, he, hf, h1, bind, Except.bind, pure, Except.pure] at h
+      · simp [hc, he, h1, bind, Except.bind, pure, Except.pure] at h
+    · by_cases he : p.str .element = []
+      · cases hf : firstAlpha (p.str .atomname) with
+        | error e => simp [hc, he, hf, bind, Except.bind, pure, Except.pure] at h
+        | ok c =>
+          simp [hc, he, hf, h1, bind, Except.bind, pure, Except.pure] at h
+          split at h
+          · simp at h
+          · simp only [Except.ok.injEq, AtomResult.keep.injEq] at h
+            subst h; simp
+      · simp [hc, he, h1, bind, Except.bind, pure, Except.pure] at h
+        split at h
+        · simp at h
+        · simp only [Except.ok.injEq, AtomResult.keep.injEq] at h
+          subst h; simp
+
+theorem Props.get_of_mem (p : Props) (n : FName) (v : RVal) (hm : (n, v) ∈ p) (hnd : (p.map Prod.fst).Nodup) :
+    p.get n = some v := by
+  induction p with
+  | nil => cases hm
+  | cons e p ih =>
+    simp only [List.map_cons, List.nodup_cons] at hnd
+    unfold Props.get
+    rcases List.mem_cons.mp hm with h | h
+    · subst h; simp [List.find?]
+    · have hne : e.1 ≠ n := by
+        intro he
+        apply hnd.1
+        rw [he]
+        exact List.mem_map_of_mem (f := Prod.fst) h
+      have := ih h hnd.2
+      unfold Props.get at this
+      simp [List.find?, hne, this]
+
 end C16
